@@ -43,11 +43,11 @@ Definition lcase : Set := (nat * block * block * block * block * bool)%type.
 Definition return_pass (b : block) : block * bool := ret_block false false (fst (crr_block b)).
 Definition check_lcase (c : lcase) : bool :=
   match c with (_, b0, b1, b2, b3, used) =>
-    block_beq (fst (fst (brk_block 2 0 b0))) b1 && block_beq (fst (fst (cont_block (cflag 0) 1 false false b1))) b2
+    block_beq (fst (fst (brk_block 5 0 b0))) b1 && block_beq (fst (fst (cont_block (cflag 0) 1 false false b1))) b2
     && block_beq (fst (return_pass b2)) b3 && Bool.eqb (snd (return_pass b2)) used end.
 Definition which_fails (c : lcase) : nat :=
   match c with (_, b0, b1, b2, b3, used) =>
-    if negb (block_beq (fst (fst (brk_block 2 0 b0))) b1) then 1
+    if negb (block_beq (fst (fst (brk_block 5 0 b0))) b1) then 1
     else if negb (block_beq (fst (fst (cont_block (cflag 0) 1 false false b1))) b2) then 2
     else if negb (block_beq (fst (return_pass b2)) b3 && Bool.eqb (snd (return_pass b2)) used) then 3 else 0 end.
 Definition failing_lcases (cs : list lcase) : list nat :=
